@@ -681,3 +681,12 @@ Lemma match_error_eq_lua src pat p0 s : is_bytes src = true ->
 Proof.
   intros Hsrc E. destruct (match_eq_lua src pat p0 s Hsrc) as [H|H]; [congruence|]. rewrite <- H. exact E.
 Qed.
+
+(* the hypothesis of gsub_pattern_eq_lua_strict is satisfiable: subject "ab", pattern "a" *)
+Example gsub_hypothesis_instance : forall pos, 0 <= pos <= slen [97; 98] ->
+  run_match nl_cfg [97; 98] [97] 0 pos <> MTooComplex /\ run_match nl_cfg [97; 98] [97] 0 pos <> MError.
+Proof.
+  intros pos H. change (slen [97; 98]) with 2 in H.
+  assert (C : pos = 0 \/ pos = 1 \/ pos = 2) by lia.
+  destruct C as [-> | [-> | ->]]; vm_compute; split; discriminate.
+Qed.
